@@ -710,7 +710,10 @@ class CloseMonitor(Monitor):
                 if lr is not None and ev.reason_phrase == "Idle timeout":
                     self.idle_checks += 1
                     o = self.sim.opts
-                    idle = min(o.get("idle_client", 600.0), o.get("idle_server", 600.0))
+                    local = o.get("idle_" + ep.name, 600.0)
+                    remote = o.get("idle_" + ("server" if ep.name == "client" else "client"), 600.0)
+                    # the peer's value is only known once its transport parameters were processed
+                    idle = min(local, remote) if ep.handshake_complete else max(local, remote)
                     deadline = lr[0] + max(idle, 3 * lr[1])
                     self.close_kinds.add("idle")
                     if t > deadline + 1e-6:
